@@ -30,6 +30,8 @@ def run(tier):
         if pos == "forin" and hk in ("builtin:type", "builtin:rawequal"):
             continue          # a host iterator that never returns nil loops forever
         fams.append(("call",) + gen_meta.call_case(pos, na, hk) + (None,))
+    for p, root in gen_meta.chain_limit_cases():
+        fams.append(("chainlimit", p, root, None))
     for p, root in gen_meta.misc_cases():
         fams.append(("misc", p, root, None))
     progs = lsem.number(fams)
